@@ -134,6 +134,15 @@ def run(tier):
     for fam in impl_cfgs:
         r = core.model_check("GreedySelectorImpl.tla", "mc/GreedySelectorImpl_%s.cfg" % fam, timeout=1200)
         rep.add_mc("GreedySelectorImpl[%s] current tree" % fam, r)
+    for fam in impl_cfgs:      # larger instances (6 items) by random exploration
+        rs = core.run_tlc("GreedySelectorImpl.tla", cfg="mc/GreedySelectorImpl_%s_sim.cfg" % fam, workers=core.NCPU,
+                          simulate="num=%d" % (60 if tier == "quick" else 3000), depth=30, extra=["-seed", str(core.seed() + 3)],
+                          timeout=600 if tier == "quick" else 3600, budget_ok=True, heap="8g")
+        if rs["error"]:
+            raise core.Machinery("GreedySelectorImpl simulation %s: %s\n%s" % (fam, rs["error"], core.tlc_error_excerpt(rs, 30)))
+        rep.cov["parts"]["GreedySelectorImpl[%s] simulation, N=6" % fam] = {"states_checked": rs.get("sim_states", 0), "result": "no error"}
+        rep.cov["states"] += rs.get("sim_states", 0)
+        rep.cov["transitions"] += rs.get("sim_states", 0)
     rep.cov["exhaustive"] = True
     if tier == "thorough":
         # optional extra (never decides the verdict): Apalache discharges the inductive invariant of the reference
